@@ -428,7 +428,7 @@ func (c *Ctx) requestFreshness(rule string) {
 		})
 	}
 	n := 0
-	for _, rf := range c.regionOf(chk, 2) {
+	for _, rf := range c.regionOf(chk, 4) {
 		f := rf.fn
 		hasIndex := false
 		for _, call := range core.Calls(f) {
@@ -449,7 +449,7 @@ func (c *Ctx) requestFreshness(rule string) {
 		if f == chk && len(lookups) == 0 {
 			// the lookup may sit in a helper of checkIBTP that also holds the index check: decided there
 			inHelper := false
-			for _, rf2 := range c.regionOf(chk, 2) {
+			for _, rf2 := range c.regionOf(chk, 4) {
 				if rf2.fn == chk || rf2.fn.Parent() != nil {
 					continue
 				}
